@@ -417,6 +417,21 @@ def run_history(case, ctx):
         if case.get('start_block') and c.size:
             ls = list(c.gates)
             c.make_block('start', ls[: max(1, len(ls) // 2)], ls[:1])
+    sib = sib_net = None
+    if not case.get('big') and rng.random() < 0.3:
+        # a second circuit holding the very same Gate objects: mutating one circuit must not reach into the other
+        try:
+            with monitor.suspended():
+                from cirbo.core.circuit import Circuit as _C
+                sib = _C()
+                for g_ in c.gates.values():
+                    sib.add_gate(g_)
+                sib.set_outputs(list(c.outputs))
+                sib_net = refsem.net_of(sib)
+            ctx.count('sibling_sharing_gate_objects')
+        except Exception as e:
+            ctx.count('sibling_build_failed:' + type(e).__name__)
+            sib = None
     hist = []
     CUR['hist'] = hist
     n_ok = 0
@@ -447,6 +462,14 @@ def run_history(case, ctx):
             outcome = type(e).__name__
             c = backup
         hist[-1] = [desc, outcome]
+        if sib is not None:
+            with monitor.suspended():
+                now_net = refsem.net_of(sib)
+            if now_net.gates != sib_net.gates or now_net.inputs != sib_net.inputs or now_net.outputs != sib_net.outputs:
+                ctx.violation('Circuit.' + opname, 'invariant', 'other_circuit_changed',
+                              '%s on one circuit changed another circuit assembled from the same Gate objects' % opname,
+                              dict(case, history=[str(h)[:200] for h in hist]))
+                sib = None
         ctx.count('op:%s:%s' % (opname, 'ok' if outcome == 'ok' else 'raised'))
         ctx.mon(opname, 'driven')
         if c.size > 60 and not case.get('big'):
